@@ -225,6 +225,12 @@ class SamplePosterior(Contract):
                                 out.append({"sampler": sampler, "ck": ck, "rng": rng, "file_flow": ff, "file_ckpt": ff and fc and fcs == "smc", "file_config": fc, "save_config": 1,
                                             "file_config_sampler": fcs})
         out += [{"sampler": sm, "ck": "none", "rng": 0, "file_flow": 0, "file_ckpt": 0, "file_config": 0, "save_config": 1, "xp_out": 1} for sm in ("importance", "smc", "emcee")]
+        # an instance rebuilt by resume_from_file: the sampler type comes from the file unless the caller names another one
+        for rs in ("smc", "emcee_smc"):
+            for given in (None, "importance", rs):
+                for ck, sc in (("defaults", 1), ("defaults", 0), ("explicit", 1)):
+                    out.append({"sampler": given or "importance", "omit_sampler": given is None, "resumed": rs, "effective": rs, "ck": ck, "rng": 0, "file_flow": 1, "file_ckpt": 1,
+                                "file_config": 1, "save_config": sc, "file_config_sampler": rs})
         out += [{"sampler": "smc", "ck": "explicit", "rng": 0, "file_flow": 0, "file_ckpt": 0, "file_config": 1, "save_config": 0},
                 {"sampler": "smc", "ck": "explicit", "rng": 0, "file_flow": 1, "file_ckpt": 1, "file_config": 1, "save_config": 0, "file_config_sampler": "smc"}]
         return out
@@ -237,8 +243,15 @@ class SamplePosterior(Contract):
         for k in ("_resume_sampler_type", "_resume_from_default", "_resume_overrides", "_resume_n_samples", "_checkpoint_defaults", "_last_sampler_type"):
             a.absent.add(k)
         path = Str("run.h5")
-        kw = {"sampler": Str(shape["sampler"])}
+        kw = {} if shape.get("omit_sampler") else {"sampler": Str(shape["sampler"])}
         g = {"a": a, "shape": shape, "flow": flow, "path": path}
+        if shape.get("resumed"):
+            a.f["_resume_sampler_type"] = Str(shape["resumed"])
+            a.f["_resume_from_default"] = Sym(z3.Const("stored_checkpoint_bytes", Misc), "bytes")
+            a.f["_resume_overrides"] = PyDict({})
+            a.f["_resume_n_samples"] = IV(z3.Int("stored_n_samples"))
+            for k in ("_resume_sampler_type", "_resume_from_default", "_resume_overrides", "_resume_n_samples"):
+                a.absent.discard(k)
         if shape["ck"] == "explicit":
             kw["checkpoint_path"] = path
             kw["checkpoint_every"] = IV(z3.Int("checkpoint_every"))
@@ -283,8 +296,10 @@ class SamplePosterior(Contract):
         q = self.qual
         sh = g["shape"]
         a = g["a"]
-        cls = SAMPLER_TYPES[sh["sampler"]]
-        tag = f"[{sh['sampler']}, checkpoint path {sh['ck']}]"
+        eff = sh.get("effective", sh["sampler"])
+        cls = SAMPLER_TYPES[eff]
+        tag = f"[{sh['sampler']}, checkpoint path {sh['ck']}]" if not sh.get("resumed") else \
+            f"[instance resumed from a {sh['resumed']} file, sampler {'not given' if sh.get('omit_sampler') else 'given as ' + sh['sampler']}, checkpoint path {sh['ck']}, save_config={sh['save_config']}]"
         inits = [e for e in p.events if e[0] == "init_sampler"]
         runs = [e for e in p.events if e[0] == "sampler.sample"]
         p.prove(z3.BoolVal(len(inits) == 1 and len(runs) == 1 and runs[0][1] is inits[0][1]), f"{q}:one sampler is built and run once {tag}")
@@ -329,7 +344,7 @@ class SamplePosterior(Contract):
                 p.prove(z3.Implies(I.truth(dd["saved_config"]), z3.BoolVal("aspire_config" in root.f["members"].d)), f"{q}:C14:context flag saved_config implies the configuration is in the file {tag}")
             if "aspire_config" in root.f["members"].d and sh["save_config"]:
                 st = root.f["members"].d["aspire_config"].f.get("sampler_type")
-                p.prove(z3.BoolVal(isinstance(st, Str) and st.v == sh["sampler"]), f"{q}:C14:C12:the stored configuration names the sampler type that ran (the resume route needs it) {tag}")
+                p.prove(z3.BoolVal(isinstance(st, Str) and st.v == eff), f"{q}:C14:C12:the stored configuration names the sampler type that ran (the resume route needs it) {tag}")
         else:
             p.prove(z3.BoolVal("checkpoint_file_path" not in run_kw), f"{q}:C12:no checkpoint keywords without a checkpoint path {tag}")
         p.prove(z3.BoolVal(a.f.get("_sampler") is s), f"{q}:C17:the instance keeps the sampler whose evaluation counter it reports {tag}")
@@ -635,3 +650,103 @@ class ResumeFromFile(Contract):
                 p.prove(z3.Not(I.truth(d.d[k])) if k in d.d else z3.BoolVal(False), f"{q}:C14:flag {k} starts cleared {tag}")
         primed = "_resume_from_default" in r.f and not isinstance(r.f["_resume_from_default"], NoneV)
         p.prove(z3.BoolVal(primed == bool(has)), f"{q}:C11:C12:the stored checkpoint is primed for the next sampling call exactly when the file holds one {tag}")
+
+
+def _config_instance(shape):
+    """an Aspire instance as config_dict sees it: every setting it reports, symbolic where the value does not matter"""
+    f = {"log_likelihood": Fn(lambda I2, a, k, n: NONE, "user_log_likelihood"), "log_prior": Fn(lambda I2, a, k, n: NONE, "user_log_prior"),
+         "dims": IV(z3.Int("cfg_dims")), "parameters": PyList([Str("mass"), Str("chi")]), "periodic_parameters": NONE, "prior_bounds": NONE,
+         "bounded_to_unbounded": B(z3.Bool("cfg_b2u")), "bounded_transform": Str("logit"), "flow_matching": B(z3.Bool("cfg_fm")), "device": NONE,
+         "xp": NONE, "flow_backend": Str("zuko"), "flow_kwargs": PyDict({}), "eps": R(z3.Real("cfg_eps")), "dtype": NONE}
+    if shape["sampler"]:
+        f["_sampler"] = Obj(SAMPLER_TYPES[shape["sampler"]], {})
+    else:
+        f["_sampler"] = NONE
+    a = Obj("Aspire", f)
+    if shape["last"]:
+        a.f["_last_sampler_type"] = Str(shape["last"])
+    else:
+        a.absent.add("_last_sampler_type")
+    return a
+
+
+class ConfigDict(Contract):
+    qual = "aspire:Aspire.config_dict"
+    properties = ("C14", "C13")
+    raises = {"ValueError": "sampler configuration requested before a sampler exists"}
+    doc = ("the configuration names the sampler type of the last sampling call (`sampler_type` == _last_sampler_type) whenever the instance has sampled - "
+           "with and without the sampler's own configuration (fit() rewrites the file's configuration without it) - and has no such entry before; "
+           "`sampler_config` is the sampler's config_dict exactly when requested")
+
+    def shapes(self):
+        return [{"last": l, "include": inc, "sampler": sm} for l in (None, "smc", "importance") for inc in (0, 1) for sm in (None, "smc", "importance")
+                if not (l and not sm)]
+
+    def setup(self, I, shape):
+        a = _config_instance(shape)
+        return Pre(a, [], {"include_sampler_config": B(bool(shape["include"]))}, ghost={"a": a, "shape": shape})
+
+    def post(self, I, pre, r):
+        p, g = I.path, pre.ghost
+        q = self.qual
+        sh = g["shape"]
+        tag = f"[{'after sampling with ' + sh['last'] if sh['last'] else 'before any sampling'}; include_sampler_config={bool(sh['include'])}]"
+        if not isinstance(r, PyDict):
+            p.prove(z3.BoolVal(False), f"{q}:C14:returns a dictionary {tag}")
+            return
+        if sh["last"]:
+            st = r.d.get("sampler_type")
+            p.prove(z3.BoolVal(st is g["a"].f["_last_sampler_type"]), f"{q}:C14:the configuration names the sampler type of the last sampling call {tag}")
+        else:
+            p.prove(z3.BoolVal("sampler_type" not in r.d), f"{q}:C14:no sampler type is recorded before the instance has sampled {tag}")
+        if sh["include"]:
+            sc = r.d.get("sampler_config")
+            p.prove(z3.BoolVal(isinstance(sc, PyDict) and isinstance(sc.d.get("sampler_class"), Str) and sc.d["sampler_class"].v == SAMPLER_TYPES[sh["sampler"]]),
+                    f"{q}:C14:C13:the sampler's own configuration names the class of the instance's sampler {tag}")
+        else:
+            p.prove(z3.BoolVal("sampler_config" not in r.d), f"{q}:C14:no sampler configuration unless requested {tag}")
+        for k in ("dims", "parameters", "periodic_parameters", "prior_bounds", "bounded_to_unbounded", "bounded_transform", "flow_matching", "device", "flow_backend", "flow_kwargs", "eps"):
+            p.prove(z3.BoolVal(r.d.get(k) is g["a"].f[k]), f"{q}:C13:setting `{k}` is reported as held by the instance {tag}")
+
+    def post_raise(self, I, pre, sig):
+        sh = pre.ghost["shape"]
+        if sig.exc == "ValueError" and sh["include"] and not sh["sampler"]:
+            return
+        return super().post_raise(I, pre, sig)
+
+
+class SaveConfig(SaveConfigModel):
+    qual = "aspire:Aspire.save_config"
+    properties = ("C14", "C13")
+    doc = ("what load_from_h5_file reads back under the given path is the instance's config_dict(**kwargs): in particular the sampler type of the last "
+           "sampling call, for either value of include_sampler_config (carries the caller-side model used by fit / sample_posterior)")
+
+    def shapes(self):
+        return [{"last": l, "include": inc, "sampler": "smc"} for l in (None, "smc", "importance") for inc in (0, 1)]
+
+    def setup(self, I, shape):
+        a = _config_instance(shape)
+        root = mk_group("/")
+        h5 = Obj("H5File", {"root": root, "mode": Str("a"), "closed": B(False), "path": Str("run.h5")})
+        return Pre(a, [h5], {"include_sampler_config": B(bool(shape["include"])), "include_sample_calls": B(False)}, ghost={"a": a, "shape": shape, "h5": h5})
+
+    def post(self, I, pre, r):
+        p, g = I.path, pre.ghost
+        q = self.qual
+        sh = g["shape"]
+        tag = f"[{'after sampling with ' + sh['last'] if sh['last'] else 'before any sampling'}; include_sampler_config={bool(sh['include'])}]"
+        load = I.front.get("utils:load_from_h5_file")
+        I.depth += 1
+        try:
+            back = I.call_repo(load, None, [g["h5"], Str("aspire_config")], {}, None, force_inline=True)
+        finally:
+            I.depth -= 1
+        if not isinstance(back, PyDict):
+            p.prove(z3.BoolVal(False), f"{q}:C14:the stored configuration reloads as a dictionary {tag}")
+            return
+        st = back.d.get("sampler_type")
+        if sh["last"]:
+            p.prove(z3.BoolVal(isinstance(st, Str) and st.v == sh["last"]), f"{q}:C14:the stored configuration names the sampler type of the last sampling call {tag}")
+        else:
+            p.prove(z3.BoolVal(st is None), f"{q}:C14:no sampler type is stored before the instance has sampled {tag}")
+        p.prove(z3.BoolVal(("sampler_config" in back.d) == bool(sh["include"])), f"{q}:C14:C13:the sampler's configuration is stored exactly when requested {tag}")
